@@ -122,7 +122,8 @@ pub fn parse_obj(src: impl IntoIterator<Item = u8>) -> Result<Builder<()>> {
     let mut max_i = Indices { pos: 0, uv: None, n: None };
     let mut line = String::new();
 
-    let mut it = src.into_iter().peekable();
+    // The input ends at the first `None`, even if the iterator could resume
+    let mut it = src.into_iter().fuse().peekable();
     while it.peek().is_some() {
         // Reuse allocation
         line.clear();
